@@ -17,17 +17,52 @@ type c20 struct{}
 
 func init() { harness.Register(c20{}) }
 
+// C20Scenario: a Redis-service history or a TCP-service history.
+type C20Scenario struct {
+	Kind string         `json:"kind"` // redis | tcp
+	R    *RedisScenario `json:"redis,omitempty"`
+	T    *TCPScenario   `json:"tcp,omitempty"`
+}
+
+func (s *C20Scenario) GetMeta() *harness.Meta {
+	if s.T != nil {
+		return &s.T.Meta
+	}
+	return &s.R.Meta
+}
+
 func (c20) ID() string              { return "C20" }
-func (c20) Empty() harness.Scenario { return &RedisScenario{} }
+func (c20) Empty() harness.Scenario { return &C20Scenario{} }
 func (c20) NontrivialRule() string {
 	return "a run is non-trivial when it ended quiescent (every client closed, or the service stopped) after at least one request and one connection; distinct = distinct (scenario, execution-hash) pairs"
 }
 func (c20) Components() ([]string, []string) {
-	return []string{"proc.stats", "proc.listener (cx counters, registry)", "redis.redis (request and per-command counters)", "redis.upstream (request counters across redirections)", "stats store (kirk91/stats)"},
-		[]string{"network (simnet)", "Redis cluster nodes (cluster)", "clients"}
+	return []string{"proc.stats", "proc.listener (cx counters, registry)", "tcp.tcpProc (connection counters of relayed connections)", "redis.redis (request and per-command counters)", "redis.upstream (request counters across redirections)", "stats store (kirk91/stats)"},
+		[]string{"network (simnet)", "Redis cluster nodes (cluster)", "scripted TCP backends", "clients"}
 }
 
 func (p c20) Gen(r *simhook.Rand, tier string, idx int) harness.Scenario {
+	if r.Chance(1, 4) {
+		// TCP service: relayed connections with membership changes (incl. a removal that lands while the relay is
+		// dialing the host it picked), every client finishing its streams and closing
+		var ts *TCPScenario
+		for ts == nil {
+			if c, ok := (c06{}).Gen(r, tier, idx).(*C06Scenario); ok && c.Kind == "e2e" && c.T.Env.HC == nil {
+				ts = c.T
+			}
+		}
+		for i := range ts.Conns {
+			ts.Conns[i].C2S.Finish, ts.Conns[i].S2C.Finish = "", ""
+		}
+		if len(ts.Faults) > 0 && r.Chance(1, 2) {
+			// aim one membership change at the moment a connection is being dialed
+			ts.Faults[r.Intn(len(ts.Faults))].Site = "net.Dial"
+		} else if r.Chance(1, 2) {
+			ts.Faults = append(ts.Faults, TCPFault{Kind: "host-remove", Node: r.Intn(ts.Env.Backends), Site: "net.Dial"})
+		}
+		ts.Class = "tcp"
+		return &C20Scenario{Kind: "tcp", T: ts}
+	}
 	var sc *RedisScenario
 	switch r.Intn(4) {
 	case 0: // plain traffic incl. invalid and unsupported requests
@@ -67,7 +102,7 @@ func (p c20) Gen(r *simhook.Rand, tier string, idx int) harness.Scenario {
 		sc.EndClose = true
 		sc.Class += "+close"
 	}
-	return sc
+	return &C20Scenario{Kind: "redis", R: sc}
 }
 
 func readStats(name string) (counters map[string]uint64, gauges map[string]uint64) {
@@ -116,7 +151,10 @@ func conservation(name string) *simrtViolation {
 }
 
 func (p c20) Run(t *testing.T, s harness.Scenario) harness.Outcome {
-	sc := s.(*RedisScenario)
+	if cs := s.(*C20Scenario); cs.Kind == "tcp" {
+		return p.runTCP(t, cs.T)
+	}
+	sc := s.(*C20Scenario).R
 	w := newRedisWorld(sc)
 	judged := false
 	w.step = func(w *redisWorld) *simrtViolation {
@@ -152,4 +190,52 @@ func (p c20) Run(t *testing.T, s harness.Scenario) harness.Outcome {
 	return out
 }
 
-func (p c20) Shrink(s harness.Scenario) []harness.Scenario { return shrinkRedis(s.(*RedisScenario)) }
+func (p c20) runTCP(t *testing.T, sc *TCPScenario) harness.Outcome {
+	w := newTCPWorld(sc)
+	judged := false
+	w.step = func(w *tcpWorld) *simrtViolation {
+		if w.rt.Step%32 == 0 && w.env != nil {
+			_, gs := readStats(w.env.Name)
+			for g, v := range gs {
+				if v > 1<<62 {
+					return &simrtViolation{Clause: "gauge-not-negative", Detail: fmt.Sprintf("gauge %s = %d (wrapped below zero) at step %d", g, v, w.rt.Step)}
+				}
+			}
+		}
+		return nil
+	}
+	w.fin = func(w *tcpWorld) *simrtViolation {
+		// judged in a quiescent final state: every client connection is over and the service holds no connection
+		if len(w.clients) != len(sc.Conns) || !w.env.Quiet() {
+			return nil
+		}
+		for _, c := range w.clients {
+			if !c.eof && !c.reset {
+				return nil
+			}
+		}
+		if len(w.env.Net.OpenSUTEnds()) > 0 {
+			return nil
+		}
+		judged = true
+		return conservation(w.env.Name)
+	}
+	out := runTCP(t, sc, w)
+	out.Nontrivial = judged
+	return out
+}
+
+func (p c20) Shrink(s harness.Scenario) []harness.Scenario {
+	cs := s.(*C20Scenario)
+	var out []harness.Scenario
+	if cs.Kind == "tcp" {
+		for _, c := range shrinkTCP(cs.T) {
+			out = append(out, &C20Scenario{Kind: "tcp", T: c.(*TCPScenario)})
+		}
+		return out
+	}
+	for _, c := range shrinkRedis(cs.R) {
+		out = append(out, &C20Scenario{Kind: "redis", R: c.(*RedisScenario)})
+	}
+	return out
+}
